@@ -12,6 +12,7 @@ type TableDef struct {
 	Cols    []string
 	Keys    [][]string // key(...) indexes; an empty list entry is the empty key
 	Indexes [][]string // index(...) (non-unique)
+	Uniques [][]string // index unique(...): unique among the non-empty values
 	Rows    [][]Val    // parallel to Cols
 }
 
@@ -30,6 +31,9 @@ func (t *TableDef) Schema() string {
 	}
 	for _, ix := range t.Indexes {
 		s += " index(" + join(ix) + ")"
+	}
+	for _, ix := range t.Uniques {
+		s += " index unique(" + join(ix) + ")"
 	}
 	return s
 }
@@ -270,6 +274,14 @@ func (db *DB) eval(q *Q) (*Rel, error) {
 				return nil, inval("where: no column %s", c)
 			}
 		}
+		// the implementation may evaluate the condition below the operators
+		// under it (moved into the sources of a union / minus / join, where a
+		// column that a source lacks counts as ""), on rows that never reach
+		// this point: an undecided comparison on such a row makes the case
+		// undecided as well
+		if err := db.ambiguousBelow(q.Src, q.Exprs[0], map[string]string{}); err != nil {
+			return nil, err
+		}
 		out := &Rel{Cols: src.Cols}
 		for _, row := range src.Rows {
 			v, err := EvalExpr(q.Exprs[0], getter(src, row))
@@ -455,6 +467,58 @@ func (db *DB) eval(q *Q) (*Rel, error) {
 		return projectRel(tmp, cm), nil
 	}
 	return nil, inval("unknown operator %s", q.Op)
+}
+
+// ambiguousBelow evaluates e on every row of every relation in the subtree n
+// (names: column name above -> name in this subtree, through renames; a column
+// the relation lacks is "") and returns the first Ambiguous error.
+func (db *DB) ambiguousBelow(n *Q, e *E, names map[string]string) error {
+	if n == nil {
+		return nil
+	}
+	if v, ok := db.Views[n.Name]; ok && n.Op == "table" {
+		return db.ambiguousBelow(v, e, names)
+	}
+	if rel, err := db.eval(n); err == nil {
+		for _, row := range rel.Rows {
+			_, err := EvalExpr(e, func(c string) (Val, bool) {
+				if m, ok := names[c]; ok {
+					c = m
+				}
+				if i := rel.Col(c); i >= 0 {
+					return row[i], true
+				}
+				return Empty, true
+			})
+			if a, ok := err.(*Ambiguous); ok {
+				return a
+			}
+		}
+	}
+	below := names
+	if n.Op == "rename" {
+		below = map[string]string{}
+		for k, v := range names {
+			below[k] = v
+		}
+		for i, to := range n.To {
+			// a name above that maps to `to` here is `from` below
+			hit := false
+			for k, v := range names {
+				if v == to {
+					below[k] = n.From[i]
+					hit = true
+				}
+			}
+			if !hit {
+				below[to] = n.From[i]
+			}
+		}
+	}
+	if err := db.ambiguousBelow(n.Src, e, below); err != nil {
+		return err
+	}
+	return db.ambiguousBelow(n.Src2, e, below)
 }
 
 func getter(r *Rel, row []Val) func(string) (Val, bool) {
